@@ -399,6 +399,14 @@ def check_eval(ctx):
 
 
 def check_precedence(ctx, spec, n, origin, rng):
+    try:
+        _check_precedence(ctx, spec, n, origin, rng)
+    except Exception as e:   # none of these expressions raises on the unchanged tree
+        ctx.violation('eval-precedence', f'precedence / helper / undefined-name expressions on {spec.kind}: unexpected {type(e).__name__}: {e}',
+                      {'kind': 'precedence', 'span_kind': spec.kind, 'n': n, 'origin': origin})
+
+
+def _check_precedence(ctx, spec, n, origin, rng):
     from fsic.core import VectorContainer
     base = np.arange(1.0, n + 1)
     # a variable named like a helper overrides the helper
